@@ -11,7 +11,7 @@ import (
 
 func init() {
 	register("C10",
-		"Decides the structural premises of slot isolation: in the poller's dispatch function (epoll handler, kqueue Wait) every path from a successful token acquisition do() to the next iteration or return releases the token exactly once; no field of the fetched slot is read before the token is held and a nil slot is skipped; slots are spliced back into the free list (operatorCache.free) only by the poller loop after the dispatch of a batch has finished, the free list head is written only by alloc/free, and freeable() waits for the token, resets, then queues; connection-side uses of the slot (token, Control) are guarded by IsActive()==true, or run under the flushing lock (which the finalizer stops before freeing the slot), or are poller-invoked callbacks (token held), or belong to teardown/initialisation; Control reads the descriptor before inuse(). Not decided: the residual check-then-act window between IsActive() and a concurrent close+reuse (needs a schedule), and the kernel delivering events for a reused fd number.",
+		"Decides the structural premises of slot isolation: in the poller's dispatch function (epoll handler, kqueue Wait) every path from a successful token acquisition do() to the next iteration or return releases the token exactly once; no field of the fetched slot is read before the token is held and a nil slot is skipped; slots are spliced back into the free list (operatorCache.free) only by the poller loop after the dispatch of a batch has finished, the free list head is written only by alloc/free, and freeable() waits for the token, resets, then queues; connection-side uses of the slot (token, Control) are guarded by IsActive()==true, or run under the flushing lock (which the finalizer stops before freeing the slot), or are poller-invoked callbacks (token held), or belong to teardown/initialisation; Control reads the descriptor before inuse(). reset() clears every callback field of a slot; the once-rules of the callback runner (C05.R1/R2/R7) are re-evaluated here because a second finalizer run would free a re-used slot. Not decided: the residual check-then-act window between IsActive() and a concurrent close+reuse (needs a schedule), and the kernel delivering events for a reused fd number.",
 		[]string{"sync/atomic is linearizable", "the poller calls the FDOperator callbacks only with the slot token held (checked here for the dispatch functions)"},
 		func(r *Run) {
 			cfgs := []string{"linux", "linux-race", "darwin"}
